@@ -40,3 +40,53 @@ Section UnusedKey.
     unfold simplify_unused_preserves_effects. vm_compute. exact (fun H => H).
   Qed.
 End UnusedKey.
+
+(* ---- SimplifyUnusedExpr and optional chains (known findings J and K) -------------- *)
+Section Chains.
+  Definition s_q : list Z := [113].
+  Definition s_y : list Z := [121].
+  Definition s_z : list Z := [122].
+  (* a world where the declared identifier 1 is an object whose property q is null,
+     reading a property of undefined throws a TypeError, and calling the global 1000 logs *)
+  Definition WJ : world := {|
+    w_unbound := ub;
+    w_lenv := fun r => if r =? 1 then VObj 1 else VNull;
+    w_this := VUndef;
+    w_genv := fun r => Some (VObj r);
+    w_un := fun _ _ _ => ([], Val zero_v);
+    w_bin := fun op a b _ => match op, b with BLooseEq, VNull => ([], Val (VBool (nullish a))) | _, _ => ([], Val zero_v) end;
+    w_call := fun f _ _ => (match f with VObj r => [r] | _ => [] end, Val VUndef);
+    w_new := fun _ _ _ => ([], Val VObjLit);
+    w_get := fun o k _ => match o with
+                          | VObj 1 => ([], Val VNull)
+                          | VUndef | VNull => ([], Throw (VStr s_TypeError))
+                          | _ => ([], Val VUndef)
+                          end;
+    w_tokey := fun v _ => ([], Val v);
+    w_tostr := fun _ _ => ([], Val (VStr []));
+    w_spread := fun _ _ => ([], Val VUndef)
+  |}.
+
+  (* a != null && (a.q?.y).z : the parenthesized chain a.q?.y ends before .z *)
+  Definition paren_chain : expr :=
+    EBin BLogAnd (EBin BLooseNe (EId 1 false false) ENull)
+      (EDot (EDot (EDot (EId 1 false false) s_q 0 false false) s_y 1 false false) s_z 0 false false).
+
+  (* J: the input throws TypeError (reading .z of undefined); the simplification
+     a?.q?.y.z short-circuits and completes normally *)
+  Lemma simplify_unused_paren_chain_refuted_w :
+    simplify_unused ub false paren_chain
+      = UExpr (EDot (EDot (EDot (EId 1 false false) s_q 1 false false) s_y 1 false false) s_z 2 false false)
+    /\ eval WJ [] paren_chain = Some ([], Throw (VStr s_TypeError))
+    /\ eval_unused WJ [] (simplify_unused ub false paren_chain) = Some ([], Val VUndef).
+  Proof. repeat split; vm_compute; reflexivity. Qed.
+
+  (* K: /* @__PURE__ */ n?.(g()) with n null never calls g; its simplification g() does *)
+  Definition pure_optional_call : expr :=
+    ECall (EId 2 false false) [ECall (EId 1000 false false) [] 0 false] 1 true.
+  Lemma simplify_unused_pure_optional_call_refuted_w :
+    simplify_unused ub true pure_optional_call = UExpr (ECall (EId 1000 false false) [] 0 false)
+    /\ eval WJ [] pure_optional_call = Some ([], Val VUndef)
+    /\ eval_unused WJ [] (simplify_unused ub true pure_optional_call) = Some ([1000], Val VUndef).
+  Proof. repeat split; vm_compute; reflexivity. Qed.
+End Chains.
